@@ -152,6 +152,9 @@ def generate(rng, tier, rep):
         c = {'tree': tree, 'roots': roots, 'flags': flags, 'extra_ign': extra, 'usecompiled': usec, 'spkgs': spkgs,
              'mode': 'cli' if cli else 'direct', 'order_seed': rng.randint(0, 10 ** 6), 'mpats_given': mp,
              'topname': rng.choice(['c%d' % i, 'tests', 'c%d' % i])}
+        if not cli and rng.random() < 0.3:
+            c['bad_stems'] = rng.sample(['tests', 'test_a', 'ftests', 'test_b'], 2)
+            rep.count('with modules whose import fails')
         if cli:
             names = module_names(c)
             pkgs = set('.'.join(x.split('.')[:k]) for x in names for k in range(1, x.count('.') + 1))
